@@ -9,6 +9,7 @@ CONSTANTS
   TdMasks <- AllMasks
   InitSel <- InitAll
   SThr <- SThrHalf
+  DFree = FALSE
   Export = FALSE
 INIT TraceInit
 NEXT TraceNext
